@@ -73,6 +73,11 @@ def history_scns(kinds, seed, cfgs=None):
     pool = [t for k in kinds for t in shapes[k]]
     out = []
     for c in (cfgs or [cfg(), cfg(multipart_threshold=3, multipart_chunksize=3, io_chunksize=1)]):
+        if 'upload' in kinds:
+            # the same file uploaded again after it was rewritten (longer, shorter, across the threshold)
+            for n1, n2 in ((3, 7), (7, 3), (5, 5), (0, 6), (9, 1)):
+                sc = scn([T_up('path', n1), T_up('path', n2, path_of=0)], dict(c), seed=seed, script='fresh')
+                out.append(inline(sc))
         for a, b in itertools.product(pool, pool):
             sc = scn([copy.deepcopy(a), copy.deepcopy(b)], dict(c), seed=seed, script='fresh',
                      adjuster={'min_size': 1, 'max_size': 1000, 'max_parts': 3})
@@ -729,6 +734,16 @@ def jobs_C17(tier, seed):
         s = scn(copy.deepcopy(bt[name]), cfg(max_request_concurrency=2), seed=seed,
                 faults={'sites': ['s3:', 'stream:fatal', 'fs:write']}, **base)
         jobs.append(job(f'two faults {name}', s, BD(tier)['FAULT2'], want, max_execs=400000))
+    # two failures of one transfer, sequentially (use_threads=False) and with every source of failure,
+    # the user's stream included: the first one recorded is reported
+    for name in ('up-mp-nonseekable', 'up-mp-seekable', 'up-mp-path', 'dl-ranged-path', 'dl-ranged-nonseekable', 'copy-mp'):
+        s = inline(scn(copy.deepcopy(bt[name]), cfg(max_in_memory_upload_chunks=1), seed=seed,
+                       faults={'sites': ['s3:', 'stream:fatal', 'fs:write', 'src:read', 'sink:write', 'cb:progress']},
+                       fields=True, field_reads=False))
+        jobs.append(job(f'seq two faults {name}', s, 2, want, max_execs=400000))
+    s = scn(copy.deepcopy(bt['up-mp-nonseekable']), cfg(max_in_memory_upload_chunks=1, max_request_concurrency=1), seed=seed,
+            faults={'sites': ['s3:UploadPart', 'src:read']}, fields=True, field_reads=False)
+    jobs.append(job('part fails, then the source fails (threaded)', s, {'sched': 1, 'env': 2}, want, max_execs=400000))
     # a transfer that already recorded a failure (siblings still in flight) when the with-block is
     # left through an exception / Ctrl-C / shutdown(cancel): the later cancellation must not replace it
     for name in ('up-mp-nonseekable', 'dl-ranged-path', 'copy-mp'):
@@ -754,6 +769,14 @@ def jobs_C18(tier, seed):
     ]
     C = cfg(max_request_concurrency=2, max_submission_concurrency=2, max_request_queue_size=2,
             max_submission_queue_size=2, max_io_queue_size=2)
+    # after any mix of finished transfers a new transfer still succeeds - also a new upload of a file that an
+    # earlier (successful / failed / cancelled) transfer already uploaded and that was rewritten since
+    for n1, n2 in ((3, 7), (7, 3)):
+        trs = [T_up('path', n1), T_dl('path', 'o5'), T_up('path', n2, path_of=0)]
+        s = scn(copy.deepcopy(trs), dict(C), seed=seed, script='fresh')
+        jobs.append(job(f'fresh re-upload of a rewritten file {n1}->{n2}', s, {'sched': 1}, want, max_execs=100000))
+        s = scn(copy.deepcopy(trs), dict(C), seed=seed, script='fresh', victims=[0], faults={'sites': ['s3:'], 'only_key': 0})
+        jobs.append(job(f'fresh re-upload of a rewritten file {n1}->{n2} after a failed upload', s, {'sched': 0, 'env': 1}, want, max_execs=20000))
     # two streamed downloads competing for a one-slot in-memory window: neither may strand the other
     CW = dict(C, max_in_memory_download_chunks=1)
     for script in ('shutdown', 'wait'):
